@@ -30,6 +30,7 @@ pub fn main(id: &str) -> ! {
         runner::runner_main(&args[2..]);
     }
     let heap_mode = id == "C06";
+    vcommon::install_quiet_panic_hook();
     let mut run = Run::from_args(id, "exploration");
     let ncpu = vcommon::ncpu();
     let jobs = std::env::var("E3_JOBS").ok().and_then(|s| s.parse().ok()).unwrap_or(ncpu);
